@@ -782,7 +782,7 @@ func checkMountBuilder(c *Check) {
 					g := controlDeps(fn).guardOf(b)
 					// kept unless (IsBindMount ∧ IsNotExist): guard must be ¬bind ∨ ¬notexist (modulo loop)
 					s := g.String()
-					okF = strings.Contains(s, "IsBindMount") && strings.Contains(s, "IsNotExist")
+					okF = strings.Contains(s, "IsBindMount") && (strings.Contains(s, "IsNotExist") || (strings.Contains(s, "errors.Is(") && strings.Contains(s, "ErrNotExist")))
 				}
 			}
 		}
